@@ -5,6 +5,8 @@ adds all 2^28 four-septet sequences), four- and five-septet sequences over the s
 the five-byte forms with every possible 5th byte (0..255, terminated or not), each followed by a sentinel tail
 so that 'bytes consumed' is observable.  Space (encode): every value in [0, 2^16), 2^k+d (k<=32, |d|<=2),
 their negatives (signed), and every composition of the septet alphabet; uleb128p1 with -1.
+Histories: 8 orders of 'first function then second function on the same value' (unsigned / +1 / signed, encoders and decoders)
+over 0..319, 2^k+-1 and their negatives, each order in its own fresh interpreter (state one function leaves for another).
 Oracle: the arithmetic definition of the DEX spec (ref below).  Fifth bytes carrying bits beyond 32 that are not plain sign
 copies are outside the DEX value domain: only 'consumes exactly 5 bytes and returns' is required there.  A signed fifth byte
 00..0f (value bits 28..31 only) IS in the domain: the result is that 32-bit pattern read as a signed integer.
@@ -152,6 +154,7 @@ def shards(ctx):
     s += [("buffered", k) for k in range(1, 6)]
     s += [("enc16", lo) for lo in range(0, 1 << 16, 1 << 12)]
     s += [("encb",), ("encsept",)]
+    s += [("hist", i) for i in range(len(HIST_ORDERS))]
     return s
 
 
@@ -232,10 +235,104 @@ def check_encode(dex, cm, v, acc):
             acc.nt.add(("s", v).__hash__())
 
 
+# ---- two-step histories in a pristine interpreter: the first call on a value is made through one function, the second through
+#      another (encoders: unsigned / unsigned+1 / signed; decoders likewise on the same bytes).  State that one function leaves
+#      behind for another (a shared table of short encodings, a decode cache keyed by the bytes) shows only in a process where the
+#      second function has not seen the value before, hence one fresh interpreter per ORDER; replay() runs the one history.
+HIST_ORDERS = [("wuleb", "wsleb"), ("wsleb", "wuleb"), ("wulebp1", "wsleb"), ("wsleb", "wulebp1"),
+               ("ruleb", "rsleb"), ("rsleb", "ruleb"), ("rulebp1", "rsleb"), ("rsleb", "rulebp1")]
+
+
+def hist_values():
+    vs = list(range(0, 320)) + [(1 << k) + d for k in range(9, 32) for d in (-1, 0, 1)]
+    return vs + [-v for v in vs if v]
+
+
+def _hist_step(dex, cm, fn, v):
+    """one call; -> None | message.  Encoders are judged by decoding their bytes with the reference; decoders are applied to the
+    canonical unsigned encoding of v & 0xffffffff (both readers accept any bytes)."""
+    if fn in ("wuleb", "wulebp1", "wsleb"):
+        if fn == "wuleb":
+            if not 0 <= v <= 0xffffffff:
+                return None
+            b = bytes(dex.writeuleb128(cm, v)); got = ref_uleb([x & 0x7f for x in b])
+        elif fn == "wulebp1":
+            if not -1 <= v <= 0xfffffffe:
+                return None
+            b = bytes(dex.writeuleb128(cm, v + 1)); got = ref_uleb([x & 0x7f for x in b]) - 1
+        else:
+            if not -(1 << 31) <= v < (1 << 31):
+                return None
+            b = bytes(dex.writesleb128(cm, v)); got = ref_sleb([x & 0x7f for x in b])
+        ok_form = 1 <= len(b) <= 5 and all(x & 0x80 for x in b[:-1]) and not b[-1] & 0x80
+        return None if (ok_form and got == v) else "%s(%d) = %s which encodes %r" % (fn, v, b.hex(), got)
+    u = v & 0xffffffff
+    septs = []
+    while True:
+        septs.append(u & 0x7f)
+        u >>= 7
+        if not u:
+            break
+    if len(septs) == 5 and septs[4] > 0x0f:
+        return None
+    raw = encode_seq(septs)
+    f = io.BytesIO(raw + TAIL)
+    got = {"ruleb": dex.readuleb128, "rulebp1": dex.readuleb128p1, "rsleb": dex.readsleb128}[fn](cm, f)
+    want = {"ruleb": ref_uleb(septs), "rulebp1": ref_uleb(septs) - 1, "rsleb": ref_sleb(septs)}[fn]
+    return None if (got == want and f.tell() == len(raw)) else "%s(%s) = %r consumed %d, expected %r consumed %d" % (fn, raw.hex(), got, f.tell(), want, len(raw))
+
+
+def hist_one(dex, cm, order, v):
+    for i, fn in enumerate(order):
+        try:
+            m = _hist_step(dex, cm, fn, v)
+        except Exception as e:       # noqa
+            m = "%s(%d) raised %s: %s" % (fn, v, type(e).__name__, e)
+        if m:
+            return "history %s then %s on value %d: step %d: %s" % (order[0], order[1], v, i + 1, m)
+    return None
+
+
+def hist_run(oi):
+    """runs in a fresh interpreter: every value's first contact with each function happens in the given order"""
+    dex, cm = _cm()
+    order = HIST_ORDERS[oi]
+    out = []
+    # the '+1' forms pass v+1 to the function: only even values, so that no two histories of one run touch the same argument
+    vals = [v for v in hist_values() if not (("wulebp1" in order or "rulebp1" in order) and v % 2)]
+    for v in vals:
+        m = hist_one(dex, cm, order, v)
+        if m:
+            out.append([v, m])
+    return {"n": len(vals), "bad": out}
+
+
 def run_shard(ctx, shard):
     dex, cm = _cm()
     acc = Acc()
     kind = shard[0]
+    if kind == "hist":
+        import json
+        import os
+        import subprocess
+        import sys
+        oi = shard[1]
+        root = os.path.dirname(os.path.dirname(os.path.abspath(__file__)))
+        code = "import sys,json; sys.path[:0]=[%r,%r]; from checks import c03; print('HIST'+json.dumps(c03.hist_run(%d)))" % (ctx.repo, root, oi)
+        p = subprocess.run([sys.executable, "-c", code], capture_output=True, text=True, env=dict(os.environ, PYTHONHASHSEED="0"))
+        line = [l for l in p.stdout.splitlines() if l.startswith("HIST")]
+        if p.returncode != 0 or not line:
+            acc.harness_error("history interpreter for order %r failed: %s" % (HIST_ORDERS[oi], (p.stderr or p.stdout)[-400:]))
+            return acc
+        res = json.loads(line[0][4:])
+        acc.n += res["n"]
+        acc.nt_disjoint += res["n"]
+        acc.count("two_step_histories", res["n"])
+        for v, m in res["bad"]:
+            acc.violation("history:%s-then-%s:%s" % (HIST_ORDERS[oi][0], HIST_ORDERS[oi][1], "single-byte" if -64 <= v < 128 else "multi-byte"),
+                          {"op": "hist", "order": oi, "value": v}, m)
+        acc.outcomes.add(("hist", oi).__hash__())
+        return acc
     if kind == "dec12":
         for a in range(128):
             check_decode(dex, cm, encode_seq([a]), [a], acc)
@@ -297,6 +394,8 @@ def run_shard(ctx, shard):
 def replay(ctx, w):
     dex, cm = _cm()
     acc = Acc()
+    if w["op"] == "hist":
+        return hist_one(dex, cm, HIST_ORDERS[w["order"]], w["value"])
     if w["op"] == "buffered":
         raw = bytes.fromhex(w["bytes"])
         check_buffered(dex, cm, raw, [x & 0x7f for x in raw], w["pos"], acc)
